@@ -1,30 +1,5 @@
 From Coq Require Import Extraction ExtrOcamlBasic.
-From Coq Require Import ZArith List.
-Import ListNotations.
-From TK Require Import Validate_Model Validate_Spec Validate Validate_Float_Points.
+From TK Require Import Validate_Model Validate_Spec Validate.
 Extraction "c14_model.ml" exec spec_outcome spec_decide pm_merge gen_tables doc_tables old_of t_defaults
   comma_expression run_check run_check_types run_merge run_index gen_container ps_build wrong_type_vs pm_lookup
   gen_predicates body_holds.
-(* wave 3: the table of the two computed bounds on the doubles that decide them (Validate_Float_Points.float_table),
-   evaluated here by vm_compute with Coq's primitive floats and written to c14_float_table_<k>.out (16 chunks of 256
-   values of N: Coq's printer overflows its stack on longer lists) next to the extracted model; checks/c14.py reads them
-   to generate the float_bound requests and their expected outcomes.  Nothing of it is extracted. *)
-Local Open Scope Z_scope.
-Set Printing Depth 100000000.
-Set Printing Width 200.
-Redirect "c14_float_table_00" Eval vm_compute in float_table 1 256.
-Redirect "c14_float_table_01" Eval vm_compute in float_table 257 256.
-Redirect "c14_float_table_02" Eval vm_compute in float_table 513 256.
-Redirect "c14_float_table_03" Eval vm_compute in float_table 769 256.
-Redirect "c14_float_table_04" Eval vm_compute in float_table 1025 256.
-Redirect "c14_float_table_05" Eval vm_compute in float_table 1281 256.
-Redirect "c14_float_table_06" Eval vm_compute in float_table 1537 256.
-Redirect "c14_float_table_07" Eval vm_compute in float_table 1793 256.
-Redirect "c14_float_table_08" Eval vm_compute in float_table 2049 256.
-Redirect "c14_float_table_09" Eval vm_compute in float_table 2305 256.
-Redirect "c14_float_table_10" Eval vm_compute in float_table 2561 256.
-Redirect "c14_float_table_11" Eval vm_compute in float_table 2817 256.
-Redirect "c14_float_table_12" Eval vm_compute in float_table 3073 256.
-Redirect "c14_float_table_13" Eval vm_compute in float_table 3329 256.
-Redirect "c14_float_table_14" Eval vm_compute in float_table 3585 256.
-Redirect "c14_float_table_15" Eval vm_compute in float_table 3841 256.
